@@ -196,3 +196,71 @@ Definition tok_ind (nch:nat) (vals:list (option Q)) (v:list (option nat)) : opti
   end.
 Definition tok_tbl3 (nr nc nch:nat) (def:list (list bool)) : tbl3 nat :=
   map (fun i => map (fun o => map (fun k => if mget def i o then Some ((i*nc+o)*nch+k)%nat else None) (seq 0 nch)) (seq 0 nc)) (seq 0 nr).
+
+(* ================= declarative reading of the property text (used by the theorems of Properties/C09.v) =========== *)
+Definition ceq (a b:cplx) : Prop := fst a == fst b /\ snd a == snd b.
+(* "its complex conjugate is present": the table holds the pole and an entry equal to its conjugate (any order) *)
+Definition has_conj (L:tbl cplx) (i o:nat) : Prop :=
+  exists z, cell L i o = Some z /\ exists i' o' z', cell L i' o' = Some z' /\ ceq z' (cconjq z).
+Definition xi_ok (xmax:Q) (X:tbl Q) (i o:nat) : Prop := exists x, cell X i o = Some x /\ 0 < x /\ x < xmax.
+Definition cov_ok (cmax:Q) (F:tbl Q) (i o:nat) : Prop := exists c, cell F i o = Some c /\ c < cmax.
+
+Section HCspec.
+Variable E : Type.
+Variable EC : Type.
+Variable mpc mpd : list (option E) -> option Q.
+Definition mpd_ok (lim:Q) (P:tbl3 E) (i o:nat) : Prop := exists v d, vget P i o = Some v /\ mpd v = Some d /\ d <= lim.
+Definition mpc_ok (lim:Q) (P:tbl3 E) (i o:nat) : Prop := exists v c, vget P i o = Some v /\ mpc v = Some c /\ lim <= c.
+
+(* 0 < xi < xi_max, MPC >= mpc_lim, MPD <= mpd_lim and, when uncertainties are computed, frequency covariance < cov_max *)
+Definition ssi_other (h:hcrit) (s:ssi_tabs E EC) (i o:nat) : Prop :=
+  xi_ok (hc_xi_max h) (sXi s) i o /\ mpc_ok (hc_mpc_lim h) (sPhi s) i o /\ mpd_ok (hc_mpd_lim h) (sPhi s) i o
+  /\ (forall F, sFnC s = Some F -> cov_ok (hc_cov_max h) F i o).
+Definition ssi_keep (h:hcrit) (s:ssi_tabs E EC) (i o:nat) : Prop :=
+  (hc_conj_on h = true -> has_conj (sLam s) i o) /\ ssi_other h s i o.
+Definition pl_other (h:hcrit) (s:pl_tabs E) (i o:nat) : Prop :=
+  xi_ok (hc_xi_max h) (pXi s) i o /\ mpc_ok (hc_mpc_lim h) (pPhi s) i o /\ mpd_ok (hc_mpd_lim h) (pPhi s) i o.
+Definition pl_keep (h:hcrit) (s:pl_tabs E) (i o:nat) : Prop :=
+  (hc_conj_on h = true -> has_conj (pLam s) i o) /\ pl_other h s i o.
+
+(* "cell (i,o) of the returned table is Some v iff it was Some v before and the pole satisfies the criteria" *)
+Definition tbl_spec {A} (K:Prop) (t0 t:tbl A) (i o:nat) : Prop :=
+  forall v, cell t i o = Some v <-> cell t0 i o = Some v /\ K.
+Definition tbl3_spec {X} (K:Prop) (t0 t:tbl3 X) (i o:nat) : Prop :=
+  forall k e, cell3 t i o k = Some e <-> cell3 t0 i o k = Some e /\ K.
+Definition otbl_spec {A} (K:Prop) (t0 t:option (tbl A)) (i o:nat) : Prop :=
+  match t0, t with Some a, Some b => tbl_spec K a b i o | None, None => True | _, _ => False end.
+Definition otbl3_spec {X} (K:Prop) (t0 t:option (tbl3 X)) (i o:nat) : Prop :=
+  match t0, t with Some a, Some b => tbl3_spec K a b i o | None, None => True | _, _ => False end.
+
+(* one NaN pattern at (i,o): every table is defined there (b = true) or every table is blank there (b = false).
+   The mode-shape covariance table is left out: SSI_poles never fills it (it is all-nan before any criterion). *)
+Definition ssi_joint (s:ssi_tabs E EC) (i o:nat) (b:bool) : Prop :=
+  is_some (cell (sFn s) i o) = b /\ is_some (cell (sXi s) i o) = b /\ is_some (cell (sLam s) i o) = b
+  /\ (forall k, (k < vlen (sPhi s) i o)%nat -> is_some (cell3 (sPhi s) i o k) = b)
+  /\ (forall F, sFnC s = Some F -> is_some (cell F i o) = b)
+  /\ (forall X, sXiC s = Some X -> is_some (cell X i o) = b).
+Definition pl_joint (s:pl_tabs E) (i o:nat) (b:bool) : Prop :=
+  is_some (cell (pFn s) i o) = b /\ is_some (cell (pXi s) i o) = b
+  /\ (forall k, (k < vlen (pPhi s) i o)%nat -> is_some (cell3 (pPhi s) i o k) = b).
+End HCspec.
+
+(* ================= one-line printers for the harness (nothing parses Coq's pretty-printer) ================= *)
+From Coq Require Import String.
+From PyOMA.Base Require Import Show.
+Open Scope string_scope.
+Definition showT (t:tbl Q) : string := showL (showL (showO showQ) " ") ";" t.
+Definition showTC (t:tbl cplx) : string := showL (showL (showO (fun z => showQ (fst z) ++ "," ++ showQ (snd z))) " ") ";" t.
+Definition showT3 (t:tbl3 nat) : string := showL (showL (fun v => showL (showO showN) "," v) " ") ";" t.
+Definition showOpt {A} (f:A->string) (t:option A) : string := match t with Some x => f x | None => "none" end.
+Definition showM (m:mask) : string := showL (showL showB " ") ";" m.
+Definition show_ssi (wf:bool) (r:ssi_tabs nat nat) : string :=
+  join "|" [showB wf; showT (sFn r); showT (sXi r); showT3 (sPhi r); showTC (sLam r);
+            showOpt showT (sFnC r); showOpt showT (sXiC r); showOpt showT3 (sPhiC r)].
+Definition show_pl (wf:bool) (r:pl_tabs nat) : string :=
+  join "|" [showB wf; showT (pFn r); showT (pXi r); showT3 (pPhi r)].
+(* whole-run entry points: tokens for the shapes, indicator lists per cell *)
+Definition eval_ssi (nch:nat) (mpcv mpdv:list (option Q)) (h:hcrit) (s:ssi_tabs nat nat) : string :=
+  show_ssi (wf_ssi nat nat s) (run_ssi nat nat (tok_ind nch mpcv) (tok_ind nch mpdv) h s).
+Definition eval_pl (nch:nat) (mpcv mpdv:list (option Q)) (h:hcrit) (s:pl_tabs nat) : string :=
+  show_pl (wf_pl nat s) (run_pl nat (tok_ind nch mpcv) (tok_ind nch mpdv) h s).
